@@ -215,6 +215,7 @@ def targeted_cases():
         [H.P_BASIC, "SOLUTION 1\n Na 1\nDUMP\n -all\nEND\n"], pre_sw=("sw dumpfile 1", "sw selfile 1"))
     add("delete-run-cells-after-abort", ["run " + H.hx("DELETE\n -solution 1\n -exchange 1\nRUN_CELLS\n -cells 1\n -time_step 10\n -start_time 3\n" + bad)],
         ["SOLUTION 1\n Na 1\nEXCHANGE 1\n X 0.1\n -equilibrate 1\nEND\nRUN_CELLS\n -cells 1\nEND\nDUMP\n -all\nEND\n"])
+    add("run-cells-after-abort", ["sw outstr 1", "run " + H.hx("RUN_CELLS\n -cells 1\n -time_step 10\n" + bad)], ["SOLUTION 1\n Na 1\nEND\n"])
     add("spread-after-abort", ["run " + H.hx("SOLUTION_SPREAD\n Na\tCl\n 3\t4\n 5\t6\n" + bad)], ["SOLUTION 1\n Na 1\nEND\nDUMP\n -all\nEND\n"])
     add("rates-cache", ["run " + H.hx("RATES\n Aaa\n -start\n 10 SAVE 1e-3 * TIME\n -end\n Zzz\n -start\n 10 SAVE 2e-3 * TIME\n -end\nSOLUTION 1\nKINETICS 1\n Zzz\n -formula NaCl 1\n -steps 1\nEND\n"),
                         "run " + H.hx("KINETICS 2\n Nosuchrate\n -formula NaCl 1\n -steps 1\nSOLUTION 2\nEND\n")],
@@ -225,7 +226,14 @@ def targeted_cases():
     return T
 
 
-def judge(ctx, exe, pol, case, res, stats):
+def finding_key(member):
+    for k, ms in gen_members.FINDING_KEYS.items():
+        if member in ms or member.split(".")[0] in ms:
+            return k
+    return "unreset-" + member.split(".")[0]
+
+
+def judge(ctx, exe, pol, case, res, stats, uncov=()):
     """turn a comparison result into the violation protocol; returns True when a violation with input was recorded"""
     kind = res["kind"]
     stats[kind] = stats.get(kind, 0) + 1
@@ -251,8 +259,15 @@ def judge(ctx, exe, pol, case, res, stats):
         replay["history_text"] = [unhx(o.split(" ", 1)[1]) if o.split(" ")[0] in ("run", "acc") else o for o in replay["ops"]]
         replay["differences"] = (res["black"] + res["wrapper"])[:8]
         replay["members_not_reset"] = res["white"][:12]
-        ctx.violation("after LoadDatabase returned 0 the instance with a history differs from a fresh instance: "
-                      + "; ".join((res["black"] + res["wrapper"])[:3]), replay)
+        what = ("after LoadDatabase returned 0 the instance with a history differs from a fresh instance: "
+                + "; ".join((res["black"] + res["wrapper"])[:3]))
+        # a difference carried by a member the static obligation already names as not reset is one finding per member group
+        stale = [m for m in uncov if any(w.split(" ")[1].split(":")[0] == m for w in res["white"])]
+        if stale:
+            before = len(ctx.violations)
+            ctx.finding(finding_key(stale[0]), what + f" [member not reset: {stale[0]}]", replay)
+            return len(ctx.violations) > before
+        ctx.violation(what, replay)
         return True
     # only engine members differ: correspondence (EngineReset, white box) broken, no observable difference on this case
     stats.setdefault("whitebox_only", []).append(dict(replay=replay, members=res["white"][:12]))
@@ -288,7 +303,7 @@ def run(ctx):
                 ctx.sample({"tags": c.get("tags", [])[:8], "db_after": c["db_after"], "result": res["kind"],
                             "history_calls": len(c["ops"]), "load": res.get("info", {}).get("load")})
             if not found:
-                found = judge(ctx, exe, pol, c, res, stats)
+                found = judge(ctx, exe, pol, c, res, stats, info["uncovered_readers"] + info["unaccounted"])
             else:
                 stats[res["kind"]] = stats.get(res["kind"], 0) + 1
     wb = stats.pop("whitebox_only", [])
